@@ -498,7 +498,8 @@ def r6(ctx):
     adds = [c for c in calls(lp, tail="add_value")]
     ok = False
     if len(adds) == 1:
-        a = [U(inline(x, lenv)).replace(" ", "") for x in adds[0].args]
+        from engine.astutil import inline_calls
+        a = [U(inline_calls(inline(x, lenv), ctx.R, f.mod, scope=f.node)).replace(" ", "") for x in adds[0].args]
         want_v = [f"{metric}.distance({thetas}.get_theta({i}).predict_viability({data}),{thetas}.get_theta({j}).predict_viability({data}))",
                   f"{metric}.distance({thetas}.get_theta({j}).predict_viability({data}),{thetas}.get_theta({i}).predict_viability({data}))"]
         ok = a[:2] == [i, j] and a[2] in want_v and U(adds[0].func.value) == res[0]
